@@ -1124,6 +1124,55 @@ def gen_lockshape():
 PARTS["lockshape"] = gen_lockshape
 
 
+# ----------------------------------------------------------------------------- grammar rules used by the walking code (C03)
+
+def gen_ruleuse():
+    import glob
+    uses = {}
+    entries = {}
+    srcs = {}
+    files = sorted(glob.glob(os.path.join(REPO, "src", "**", "*.rs"), recursive=True)) + \
+        sorted(glob.glob(os.path.join(REPO, "parser", "src", "*.rs")))
+    for path in files:
+        rel = os.path.relpath(path, REPO)
+        if rel == "src/verif.rs":
+            continue
+        text = read(rel)
+        if "Rule::" not in text:
+            continue
+        t = lex(text)
+        found = False
+        for i in range(len(t) - 2):
+            if t[i] == "Rule" and t[i + 1] == "::" and re.fullmatch(r"[a-z_][a-z_0-9#]*", t[i + 2] or ""):
+                name = t[i + 2]
+                if name.startswith("r#"):
+                    name = name[2:]
+                found = True
+                # `SimpleSLParser::parse(Rule::x, ..)` names the start rule: no pair of that rule is expected
+                if i >= 2 and t[i - 1] == "(" and t[i - 2] == "parse":
+                    entries.setdefault(name, set()).add(rel)
+                else:
+                    uses.setdefault(name, set()).add(rel)
+        if found:
+            srcs[rel] = text
+    if len(uses) < 40:
+        raise TranslateError("only %d grammar rules found in the walking code" % len(uses))
+    lines = ["-- GENERATED by tools/translate.py from /repo (do not edit).",
+             "-- sources: " + ", ".join("%s@%s" % (k, sha(v)) for k, v in sorted(srcs.items())),
+             "namespace Ssl.Gen", "",
+             "/-- every `Rule::<name>` the crate mentions (patterns of the pair-walking code, PRATT_PARSER, `parse(Rule::..)` entry points),",
+             "    with the number of files mentioning it -/",
+             "def rulesInCode : List (String × Nat) := [" + ", ".join("(%s, %d)" % (lstr(k), len(v)) for k, v in sorted(uses.items())) + "]",
+             "",
+             "/-- start rules handed to `SimpleSLParser::parse` -/",
+             "def startRules : List String := [" + ", ".join(lstr(k) for k in sorted(entries)) + "]",
+             "", "end Ssl.Gen", ""]
+    return write_if_changed("RuleUse.lean", "\n".join(lines))
+
+
+PARTS["ruleuse"] = gen_ruleuse
+
+
 def main(argv):
     global REPO, OUT
     args = list(argv)
